@@ -185,6 +185,27 @@ def tlc(workdir, module, cfg=None, workers=4, heap="3g", timeout=900, extra=(), 
     return TLCResult(rc, out, time.time() - t0)
 
 
+def apalache(work, relpath, inv="Inv", timeout=300):
+    """Checks --length=0 --inv=<inv> of an integer-only lemma module with Apalache. Returns "proved" / "timeout" / "not-run: ...";
+    a lemma that is REFUTED is a specification error (Inconclusive), never a verdict about the code."""
+    d = tempfile.mkdtemp(prefix="apalache-", dir=work)
+    shutil.copy(os.path.join(SPEC, relpath), d)
+    mod = os.path.basename(relpath)
+    try:
+        p = subprocess.run(["apalache-mc", "check", "--length=0", "--inv=" + inv, "--out-dir=" + os.path.join(d, "out"), mod], cwd=d,
+                           capture_output=True, text=True, timeout=timeout, env=dict(os.environ, JVM_ARGS="-Xmx2g -Djava.io.tmpdir=" + d))
+    except subprocess.TimeoutExpired:
+        return "timeout"
+    finally:
+        pass
+    if "The outcome is: NoError" in p.stdout:
+        shutil.rmtree(d, ignore_errors=True)
+        return "proved"
+    if "Error" in p.stdout and "violat" in p.stdout:
+        raise Inconclusive("spec error: lemma %s does not hold\n%s" % (mod, p.stdout[-2000:]))
+    return "not-run: " + (p.stdout + p.stderr)[-200:].replace("\n", " ")
+
+
 def model_check(work, runs):
     """runs: list of dict(module, cfg, workers, timeout, expect_violation(optional)). Runs them in parallel.
     Returns (states, transitions, details). A failing model run is a spec error -> Inconclusive."""
